@@ -504,6 +504,131 @@ def memo_key_of_decorator(index: RepoIndex, f: Func, d: ast.AST):
     return (not ignored, src(K), ignored)
 
 
+def reserved_converters(index: RepoIndex) -> Dict[str, ast.AST]:
+    """key -> expression over `V` (the configured value) that process_reserved_keys stores
+    under that key: from the chain `if 'k' in data: data['k'] = E(data['k'])`, or from a
+    module-level table of one-parameter lambdas applied by a loop `data[key] =
+    conv(data[key])`"""
+    f = index.func(FACTORY, 'process_reserved_keys')
+    dp = f.node.args.args[0].arg
+    out: Dict[str, ast.AST] = {}
+    V = ast.Name('V', ast.Load())
+
+    class Sub(ast.NodeTransformer):
+        def __init__(self, text):
+            self.text = text
+
+        def visit(self, n):
+            if isinstance(n, ast.expr) and src(n) == self.text:
+                return copy.deepcopy(V)
+            return super().visit(n)
+    w = walk_function(f.node)
+    for e in w.events:
+        if e.kind == 'store' and isinstance(e.target, ast.Subscript) and \
+                src(e.target.value) == dp and isinstance(e.target.slice, ast.Constant) and \
+                isinstance(e.target.slice.value, str) and not e.loops:
+            k = e.target.slice.value
+            val = inline_new(index, f, w.expand(e.value))
+            out[k] = Sub(f"{dp}['{k}']").visit(copy.deepcopy(val))
+    # table form
+    for e in w.events:
+        if e.kind == 'store' and isinstance(e.target, ast.Subscript) and \
+                src(e.target.value) == dp and len(e.loops) == 1 and \
+                isinstance(e.loops[0][0], ast.Tuple) and len(e.loops[0][0].elts) == 2 and \
+                isinstance(e.loops[0][1], ast.Call) and \
+                isinstance(e.loops[0][1].func, ast.Attribute) and \
+                e.loops[0][1].func.attr == 'items' and \
+                isinstance(e.loops[0][1].func.value, ast.Name):
+            kv, cv = (src(t) for t in e.loops[0][0].elts)
+            if src(e.target.slice) != kv or src(e.value) != f'{cv}({dp}[{kv}])':
+                continue
+            tb = f.module.assigns.get(e.loops[0][1].func.value.id, [])
+            if len(tb) != 1 or not isinstance(tb[0], ast.Dict):
+                continue
+            for kk, vv in zip(tb[0].keys, tb[0].values):
+                if not (isinstance(kk, ast.Constant) and isinstance(kk.value, str)):
+                    continue
+                if isinstance(vv, ast.Lambda) and len(vv.args.args) == 1:
+                    body = inline_new(index, f, vv.body)
+                    out[kk.value] = Sub(vv.args.args[0].arg).visit(copy.deepcopy(body))
+                elif isinstance(vv, ast.Name):
+                    out[kk.value] = ast.Call(vv, [copy.deepcopy(V)], [])
+    return out
+
+
+def inline_new(index: RepoIndex, f: Func, e: ast.AST) -> ast.AST:
+    """helpers the pinned tree did not have, read through (pinned names are vocabulary)"""
+    from ..inline import inline_methods_by_name, inline_pure_exprs
+    from ..pinned_names import FUNCTIONS as _PF, METHODS as _PM
+    e = inline_pure_exprs(index, f.module, f.cls, e, keep=tuple(_PF | _PM))
+    return inline_methods_by_name(index, e, new_only=True)
+
+
+def composite_parts(index: RepoIndex, rep, rule: str) -> None:
+    """the lists of a composite (`transition_functions`, `reward_functions`,
+    `terminating_functions`) become one component per configured entry, in order, in a list
+    that can be iterated at every step: `[factory_X(d) for d in V]` / `list(map(factory_X,
+    V))`.  A bare `map(..)` / generator is consumed by the first step; anything that goes
+    through a mapping or a set keyed on the entries merges entries that look alike."""
+    conv = reserved_converters(index)
+    for key, fac in (('transition_functions', 'factory_transition_function'),
+                     ('reward_functions', 'factory_reward_function'),
+                     ('terminating_functions', 'factory_terminating_function')):
+        e = conv.get(key)
+        if e is None:
+            raise AnalysisError(f'process_reserved_keys: no converter found for `{key}`')
+        line = index.func(FACTORY, 'process_reserved_keys').node.lineno
+        x = e
+        listed = False
+        while isinstance(x, ast.Call) and src(x.func) in ('list', 'tuple') and len(x.args) == 1:
+            x, listed = x.args[0], True
+        lazy = None
+        if isinstance(x, ast.GeneratorExp) and not listed:
+            lazy = 'a generator expression'
+        if isinstance(x, ast.Call) and src(x.func) in ('map', 'filter', 'zip', 'iter',
+                                                       'reversed') and not listed:
+            lazy = f'`{src(x.func)}(..)`'
+        if lazy:
+            rep.violation(rule, FACTORY, 'process_reserved_keys', line, src(e)[:120],
+                          f'`{key}` is stored as {lazy}, a one-shot iterator: the composite '
+                          f'iterates its parts at every step, so after the first step it has no '
+                          f'parts left (a termination that never fires again, a reward of 0)')
+            continue
+        # the entries the parts are built from
+        if isinstance(x, ast.Call) and src(x.func) == 'map' and len(x.args) == 2:
+            fn_, it_, elt_ok = src(x.args[0]), x.args[1], True
+        elif isinstance(x, (ast.ListComp, ast.GeneratorExp)) and len(x.generators) == 1 and \
+                not x.generators[0].ifs and isinstance(x.elt, ast.Call) and \
+                len(x.elt.args) == 1 and not x.elt.keywords:
+            fn_, it_ = src(x.elt.func), x.generators[0].iter
+            elt_ok = src(x.elt.args[0]) == src(x.generators[0].target)
+        else:
+            fn_, it_, elt_ok = None, None, False
+        where = x
+        if isinstance(x, (ast.ListComp, ast.GeneratorExp)) and x.generators:
+            where = ast.Tuple([g.iter for g in x.generators], ast.Load())
+        elif isinstance(x, ast.Call) and src(x.func) == 'map' and len(x.args) >= 2:
+            where = x.args[1]
+        keyed = [n for n in ast.walk(where) if
+                 isinstance(n, (ast.DictComp, ast.Dict, ast.SetComp, ast.Set)) or
+                 (isinstance(n, ast.Call) and src(n.func).split('.')[-1] in (
+                     'dict', 'set', 'frozenset', 'unique_everseen', 'unique_justseen',
+                     'OrderedDict', 'fromkeys'))]
+        if keyed:
+            rep.violation(rule, FACTORY, 'process_reserved_keys', line, src(e)[:120],
+                          f'the parts of `{key}` pass through `{src(keyed[0])[:60]}`: entries with '
+                          f'the same key are merged, so a composite configured with the same '
+                          f'component twice (different parameters) loses one of its parts')
+            continue
+        if fn_ is None:
+            raise AnalysisError(f'process_reserved_keys: converter of `{key}` '
+                                f'(`{src(e)[:80]}`) outside the grammar')
+        rep.check(fn_ == fac and elt_ok and src(it_) == 'V', rule, FACTORY,
+                  'process_reserved_keys', line, src(e)[:120],
+                  f'`{key}` is not one `{fac}(entry)` per configured entry, in order',
+                  f'{key}: one part per entry')
+
+
 def validation_before_imports(index: RepoIndex, rep, rule: str) -> None:
     """a configuration naming `module:Name` components is validated before the factories
     import that module (every factory_* calls validate first, C17.R5; import_if_custom is
@@ -713,6 +838,7 @@ def run(index: RepoIndex, rep) -> None:
     rep.rule('C17.R6', 'assembly: chain / reduce_sum, spaces sized from a sample, components '
              'in GridWorld\'s parameter order', floor=8)
     rep.rule('C17.R7', 'declared types and colours cover what can be placed (C01.R6)', floor=21)
+    composite_parts(index, rep, 'C17.R6')
     rep.rule('C17.R8', 'schema predicates do not consult registries (validation precedes the '
              'import of custom modules)', floor=8)
     validation_before_imports(index, rep, 'C17.R8')
